@@ -12,11 +12,12 @@ import (
 
 // c12Gen is what the observer knows about one generation of one incarnation of the group.
 type c12Gen struct {
-	synced       map[string]map[string][]int32 // member id -> assignment received by its latest successful sync
-	syncedStr    map[string]string
-	subAtAssign  map[string][]string // member id -> subscription in force when the first sync of this generation succeeded
-	resubscribed map[string]bool     // member re-joined inside this generation (after the assignment existed) with another subscription
-	complete     bool
+	synced         map[string]map[string][]int32 // member id -> assignment received by its latest successful sync
+	syncedStr      map[string]string
+	subAtAssign    map[string][]string // member id -> subscription in force when the first sync of this generation succeeded
+	topicsAtAssign map[string]int      // store topics -> partition count at that moment (partitions added later belong to later generations)
+	resubscribed   map[string]bool     // member re-joined inside this generation (after the assignment existed) with another subscription
+	complete       bool
 }
 
 type c12Obs struct {
@@ -94,6 +95,7 @@ func (o *c12Obs) observe(w *gWorld, ev *gEvent) {
 		}
 		if g.subAtAssign == nil {
 			g.subAtAssign = map[string][]string{}
+			g.topicsAtAssign = w.cfg.Topics
 			for id := range tr.Members {
 				if info := w.ids[id]; info != nil {
 					g.subAtAssign[id] = info.Sub
@@ -187,7 +189,7 @@ func (o *c12Obs) observe(w *gWorld, ev *gEvent) {
 		owned := map[string]int{}
 		for id := range tr.Members {
 			for t, ps := range g.synced[id] {
-				if _, inStore := w.cfg.Topics[t]; !inStore {
+				if _, inStore := g.topicsAtAssign[t]; !inStore {
 					continue // topic absent from the store: the phantom partition is neither required nor forbidden
 				}
 				for _, p := range ps {
@@ -210,11 +212,11 @@ func (o *c12Obs) observe(w *gWorld, ev *gEvent) {
 			sort.Strings(extra)
 			return
 		}
-		miss, extra := check(c12Parts(w.cfg.Topics, cur))
+		miss, extra := check(c12Parts(g.topicsAtAssign, cur))
 		if len(miss) > 0 || len(extra) > 0 {
 			class := "partitions_not_covered_exactly_once"
 			if anyResub {
-				if m0, e0 := check(c12Parts(w.cfg.Topics, atAssign)); len(m0) == 0 && len(e0) == 0 {
+				if m0, e0 := check(c12Parts(g.topicsAtAssign, atAssign)); len(m0) == 0 && len(e0) == 0 {
 					class = "stable_rejoin_with_new_subscription_keeps_old_assignment"
 				}
 			}
@@ -226,10 +228,11 @@ func (o *c12Obs) observe(w *gWorld, ev *gEvent) {
 
 func TestVerifC12(t *testing.T) {
 	r := verifkit.Start(t, "C12", "group")
-	defer r.Finish("real GroupCoordinator over the real InMemoryStore on synctest virtual time; PRNG op lists (join new/existing with random subscriptions, sync, heartbeat, leave, commit, time advance incl. session/rebalance expiry, well-behaved settle rounds) for <=4 members, <=3 store topics of 1-5 partitions plus an optional topic missing from the store. At every successful SyncGroup reply of the group's current generation (generation/membership read from the stored group record): decoded assignment has only topics of that member's latest subscription; pairwise disjoint from what other current members received in the same generation; identical to what the same member received earlier in that generation; once every current member has synced, the union covers every partition (store metadata) of every topic subscribed by >=1 member exactly once. non-trivial = case in which a generation of >=2 members was fully synced",
+	defer r.Finish("real GroupCoordinator over the real InMemoryStore on synctest virtual time; PRNG op lists (join new/existing with random subscriptions, sync, heartbeat, leave, commit, time advance incl. session/rebalance expiry, well-behaved settle rounds) for <=4 members, <=3 store topics of 1-5 partitions plus an optional topic missing from the store. At every successful SyncGroup reply of the group's current generation (generation/membership read from the stored group record): decoded assignment has only topics of that member's latest subscription; pairwise disjoint from what other current members received in the same generation; identical to what the same member received earlier in that generation; once every current member has synced, the union covers every partition (store metadata as of the generation's first successful sync; an administrator op adds partitions between requests) of every topic subscribed by >=1 member exactly once. non-trivial = case in which a generation of >=2 members was fully synced",
 		"subscription of a member = the one sent with its latest JoinGroup", "topics absent from the store have no partitions in the oracle's universe (the phantom partition 0 is neither required nor forbidden)", "assignment bytes decoded with franz-go kmsg.ConsumerMemberAssignment")
 	p := gDefaultProfile
-	n := r.N(600, 40000)
+	p.WGrow = 3
+	n := r.N(1200, 40000)
 	seen := func(w *gWorld, ev *gEvent) { r.Seen("group_states", w.stateSig(ev.After)) }
 	account := func(ci int, w *gWorld, o *c12Obs) {
 		if w.blocked {
@@ -240,6 +243,11 @@ func TestVerifC12(t *testing.T) {
 		r.Count("generations_fully_synced", int64(o.fullGens))
 		r.Count("generations_fully_synced_multi_member", int64(o.multiMember))
 		r.Count("rejoin_with_changed_subscription_inside_generation", int64(o.resubInGen))
+		for _, e := range w.log {
+			if e.K == "grow" {
+				r.Count("partition_count_increases", 1)
+			}
+		}
 		if ci < 2 {
 			r.Sample(gWitness(w, -1, nil))
 		}
